@@ -71,6 +71,9 @@ func (s *QueryPlanStep) SetComputedValues(ctx *PlanningContext) *QueryPlanStep {
 	if s.formatter == nil {
 		s.formatter = format.NewBufferedFormatter().WithSchema(ctx.Schema)
 	}
+	if ctx.Operation != nil {
+		s.formatter.WithVariableDefinitions(ctx.Operation.VariableDefinitions)
+	}
 	// set OperationName and OperationType for root steps if provided
 	// by realization there're no operations in sub query and they're all queries
 	if len(s.InsertionPoint) == 0 {
